@@ -69,3 +69,10 @@ func stillFails(f Finding) bool {
 	got := guard(20*time.Second, func() string { return o.Fn(cx, h) })
 	return want != got
 }
+
+func init() {
+	// findings whose witness is a relation between views or a configuration pair are re-evaluated by the run of the check
+	// itself (their signature matches or not); stand-alone they are reported as listed.
+	exampleReplayers["relation"] = func(f Finding) bool { return true }
+	exampleReplayers["config"] = func(f Finding) bool { return true }
+}
